@@ -210,7 +210,9 @@ impl<V: JwsVerifier> SdJwtCredentialValidator<V> {
       .typ()
       .ok_or(KeyBindingJwtError::InvalidHeaderTypValue)?;
 
-    if typ != KeyBindingJwtClaims::KB_JWT_HEADER_TYP {
+    // The `typ` of a key binding JWT is `kb+jwt`. `sd-jwt-payload`'s `KB_JWT_HEADER_TYP` (used by issuers built on
+    // that crate) carries a leading space, so that spelling is still tolerated.
+    if typ != "kb+jwt" && typ != KeyBindingJwtClaims::KB_JWT_HEADER_TYP {
       return Err(KeyBindingJwtError::InvalidHeaderTypValue);
     }
     let method_id: DIDUrl = match &options.jws_options.method_id {
